@@ -217,6 +217,8 @@ def _show(r):
 
 
 def run(ctx, report):
+    from .premises import accessor_entries, stateless_premise
+    stateless_premise(ctx, report, 'R12-P1-stateless', ['lookup'], extra=lambda prog, eff: accessor_entries(prog, eff, ("schwifty.bic.BIC",)), stop=(), without_national=True)
     prog = ctx.program
     facts = ctx.facts
     reg = ctx.registry
@@ -276,6 +278,11 @@ def run(ctx, report):
         bics_b = rnd.sample(allbics, min(600, len(allbics)))
     # bank codes that are all zeros are ordinary codes (five of them are listed): always included
     keys_b = sorted(set(keys_b) | {k for k in allkeys if set(k[1]) == {"0"}})
+    # entries whose BIC or bank code is not in compact canonical form (white space, lower case, wrong length) are the ones a lookup can lose: always included
+    import re as _re
+    odd = {k for k, v in by_key.items() if any((e.get("bic") and not _re.fullmatch(r"[A-Z0-9]{8}([A-Z0-9]{3})?", e["bic"])) or not _re.fullmatch(r"[A-Z0-9]+", k[1]) for e in v)}
+    keys_b = sorted(set(keys_b) | odd)
+    bics_b = sorted(set(bics_b) | {b for b in allbics if not _re.fullmatch(r"[A-Z0-9]{8}([A-Z0-9]{3})?", b)})
     keys_b += [("DE", "00000001"), ("GB", "ZZZZ")]
     # the keys are independent: chunks of them are evaluated in forked workers, the recorded rule instances replayed in order
     from ..par import replay, run_recorded
